@@ -8,12 +8,14 @@
     B \t reason          the line could not be interpreted (a harness/driver defect, never a verdict)
 -/
 import Driver.C06
+import Driver.Cast
 
 open Jl
 
-def runLine (line : String) : DriverC06.Result :=
+def runLine (line : String) : Driver.Result :=
   match line.splitOn "\t" with
   | ["c06", ops, obs] => DriverC06.runCase ops obs
+  | ["cast", prop, callee, src, ext, impl] => Driver.CastCase.runCase prop callee src ext impl
   | kind :: _ => ⟨"B", s!"unknown case kind or arity: {kind}"⟩
   | [] => ⟨"B", "empty line"⟩
 
